@@ -173,7 +173,10 @@ class Driver:
                             del attrs["x"]          # only part of the per-axis position
                     elif not fl & 16:
                         attrs["pos"] = user_pos(n)
-                UserAddNode(tr, n, attrs, force=bool(fl & 1))
+                pixels = None
+                if fl & 32 and not self.cfg.has_seg:
+                    pixels = (np.array([t]), np.array([0]), np.array([0]))   # pixels without a segmentation
+                UserAddNode(tr, n, attrs, pixels=pixels, force=bool(fl & 1))
             elif k == K_ADDEDGE:
                 UserAddEdge(tr, (c[1], c[2]), force=bool(c[3]))
             elif k == K_DELEDGE:
@@ -420,7 +423,7 @@ def alphabet(drv: Driver, kinds=None, wide=True):
                     for f in (0, 1):
                         out.append([K_ADDNODE, n, t, i, f])
                 for i in sorted({1, maxT + 1}):
-                    for f in (2, 3, 16, 17):
+                    for f in (2, 3, 16, 17, 32, 33):
                         out.append([K_ADDNODE, n, t, i, f])
             out.append([K_ADDNODE, n, 0, 1, 4])
             out.append([K_ADDNODE, n, 0, 1, 8])
